@@ -14,7 +14,7 @@
  *   <a> R <k> <srclabel|-1> <mis> <old> <new> <label> | <a> S|D|P <k> <hex|-> <label>
  *   <a> U <k> <tok> | <a> F <label> <off> <n> <v> | <a> G <label> <off> | <a> X
  *   <a> BA <k> <init> <obj> | <a> BP <obj> <hex> | <a> BF <obj>
- *   <a> VI <k> <stride> <n> <obj> | <a> VA <obj> <count> | <a> VF <obj>
+ *   <a> VI <k> <stride> <n> <obj> | <a> VA <obj> <count> | <a> VR <obj> <n> | <a> VF <obj>
  * (<a> arena 0/1, <k> scope index with 0 = innermost, labels/objects are chosen by the generator)
  *
  * stdout, per sequence: "BEGIN", one line per primitive arena operation
@@ -697,6 +697,33 @@ exec_op(char **tok, int n)
 			}
 		}
 		printf("# %d VA %d => c %d\n", ai, o, ok);
+		fflush(stdout);
+	} else if (strcmp(op, "VR") == 0) {
+		/* vector_reserve(vv, n): with room left but not enough, vector.c names
+		 * sizeof(struct vector) + len * stride, less than the block's size */
+		size_t cnt, e, q;
+		int o, ok = 1;
+
+		o = (int)num(tok, &i, n);
+		cnt = num(tok, &i, n);
+		if (o < 0 || o >= MAXOBJ || objs[o].kind != 2)
+			die("not a vector");
+		cur_obj = o;
+		if (vector_reserve((void **)&objs[o].vc, cnt))
+			die("vector_reserve");
+		resnapshot_obj(o);
+		cur_obj = -1;
+		if (vector_length(objs[o].vc) != objs[o].nelem)
+			ok = 0;
+		for (e = 0; ok && e < objs[o].nelem; e++) {
+			unsigned char *el = (unsigned char *)objs[o].vc + e * objs[o].stride;
+
+			for (q = 0; q < objs[o].stride; q++) {
+				if (el[q] != (unsigned char)((e * 7 + 3) & 0xff))
+					ok = 0;
+			}
+		}
+		printf("# %d VR %d => c %d\n", ai, o, ok);
 		fflush(stdout);
 	} else if (strcmp(op, "VF") == 0) {
 		int o = (int)num(tok, &i, n);
